@@ -103,6 +103,14 @@ def teval(t, env, hooks=None):
                         return UNKNOWN if unk else v
                     res = v
                 return UNKNOWN if unk else res
+            if op in ("mod", "floordiv"):
+                vals = [rec(a) for a in args]
+                if len(vals) == 2 and all(v is not UNKNOWN and isinstance(v, (int, float, Fraction)) and not isinstance(v, bool) for v in vals) and vals[1] != 0:
+                    try:
+                        r_ = vals[0] // vals[1] if op == "floordiv" else vals[0] % vals[1]
+                        return int(r_) if isinstance(r_, Fraction) and r_.denominator == 1 else r_
+                    except Exception:
+                        return UNKNOWN
             if op in ("bitor", "bitand", "bitxor", "lshift", "rshift", "mod", "floordiv", "pow"):
                 vals = [rec(a) for a in args]
                 if any(v is UNKNOWN or not isinstance(v, (int, bool)) for v in vals):
